@@ -86,6 +86,8 @@ def access_path(f, idx, ctx=None, _depth=0):
             return access_path(f, n['obj'], ctx, _depth + 1)
         if is_transparent_call(n) and n.get('args'):
             return access_path(f, n['args'][0], ctx, _depth + 1)
+        if n.get('op') == '[]' and n.get('obj') is not None:
+            return access_path(f, n['obj'], ctx, _depth + 1) + ('[]',)
         return ('call:%s' % strip_targs(n.get('c', '?') or '?'),)
     if k == 'unop' and n['op'] in ('*', '&'):
         return access_path(f, n['e'], ctx, _depth + 1)
